@@ -54,31 +54,65 @@ def provenance(repo, rule):
             subs.append((n, n.args[0]))
     if not subs:
         raise AnalysisError("no lookup into poseidon_constants found in poseidon_hash")
+    def scoped_defs(nm, at):
+        """definitions of a name used inside a function: the argument of every call for a parameter, the assignments of the function
+        for a local, and - for the variable of a comprehension over the parameter table - what its filter compares the entries with"""
+        fn = next((p_ for p_ in parents(at) if isinstance(p_, ast.FunctionDef)), None)
+        if fn is None:
+            return None
+        out = []
+        params = [a.arg for a in fn.args.args]
+        if nm in params:
+            k = params.index(nm)
+            for c in ast.walk(m.tree):
+                if isinstance(c, ast.Call) and isinstance(c.func, ast.Name) and c.func.id == fn.name and len(c.args) > k:
+                    out.append((c.args[k], c))
+            return out
+        for a in ast.walk(fn):
+            if isinstance(a, ast.Assign) and any(isinstance(t, ast.Name) and t.id == nm for t in a.targets):
+                out.append((a.value, a))
+            if isinstance(a, ast.comprehension) and isinstance(a.target, ast.Name) and a.target.id == nm and "poseidon_constants" in norm(a.iter):
+                for f_ in a.ifs:
+                    for x in ast.walk(f_):
+                        if isinstance(x, ast.Compare) and any("poseidon_constants" in norm(s_) for s_ in [x.left] + x.comparators):
+                            out += [(s_, a) for s_ in [x.left] + x.comparators if "poseidon_constants" not in norm(s_)]
+        return out
     for n, key in subs:
         where = "%s:%s" % (m.relpath, n.lineno)
         # reaching definitions of the key (module-level, flow-insensitive: every definition must be good)
-        frontier = [key]
+        frontier = [(key, n)]
         seen = set()
         bad, good = [], []
         while frontier:
-            e = frontier.pop()
+            e, at = frontier.pop()
             if "environ" in norm(e) or "getenv" in norm(e):
                 bad.append(norm(e))     # the environment is only one of the three selection paths
                 continue
             if mentions_backend_name(m, e):
                 good.append(norm(e))
                 continue
+            if norm(e) in ("runtime.backend.get_modulus()", "pysnark.runtime.backend.get_modulus()"):
+                good.append(norm(e))    # the field the selected backend computes in (compared with the order a set was made for)
+                continue
+            if isinstance(e, ast.Constant) and isinstance(e.value, str) and any(isinstance(p_, ast.comprehension) for p_ in parents(e)):
+                continue                # a name excluded by a filter (key != 'nobackend') selects nothing
             names = [x.id for x in ast.walk(e) if isinstance(x, ast.Name) and x.id not in ("os",)]
             if isinstance(e, ast.Constant) or "environ" in norm(e) or "getenv" in norm(e):
                 bad.append(norm(e))
                 continue
             progressed = False
             for nm in names:
-                if nm in seen:
+                if (nm, id(next((p_ for p_ in parents(at) if isinstance(p_, ast.FunctionDef)), None))) in seen:
                     continue
-                seen.add(nm)
+                seen.add((nm, id(next((p_ for p_ in parents(at) if isinstance(p_, ast.FunctionDef)), None))))
+                sd = scoped_defs(nm, at)
+                if sd:
+                    for v_, at2 in sd:
+                        frontier.append((v_, at2))
+                        progressed = True
+                    continue
                 for d in module_defs(m, nm):
-                    frontier.append(d.value)
+                    frontier.append((d.value, d))
                     progressed = True
             if not progressed and not names:
                 bad.append(norm(e))
